@@ -825,3 +825,82 @@ def rule_pairs_all(prog, rep, tier, anchor="sync_properties.sync_properties", pe
             rep.violation(Finding("PAIRS", anchor, "pair-loop", "; ".join(problems), loc(prog, loop if isinstance(loop, ast.For) else c)))
         else:
             rep.holds("PAIRS", "%s: every pair of zip(%s) is applied, result threaded" % (anchor, ", ".join(a.id for a in it.args)), loc(prog, c), "")
+
+
+# ---------------------------------------------------------------------------- FIRST-MATCH
+def rule_first_match(prog, rep, tier, anchor="parse._merge_inner_function", owner="parse.class_"):
+    """FIRST-MATCH (C07, C19): the method merged into a class is the *first* definition of that name in ast.walk order
+    (breadth-first: the class's own method comes before any method of a nested class).  The selection over
+    `ast.walk(<class>)` is classified by its shape: next(...) / [0] / loop with break or return at the first hit select the
+    first; deque(maxlen=1) / [-1] / reversed / a dict built from the matches / a loop that keeps assigning select the last."""
+    cands = [prog.fn(anchor)] if prog.has_fn(anchor) else [f for f in prog.region(prog.fn(owner)) if f.parent_fn is None]
+    n = 0
+    for fi in cands:
+        for w in ast.walk(fi.node):
+            if not (isinstance(w, ast.Call) and isinstance(w.func, (ast.Name, ast.Attribute)) and prog.ext_name(w.func, w) == "ast.walk"):
+                continue
+            if not any(isinstance(x, ast.Attribute) and x.attr == "name" for x in ast.walk(fi.node)):
+                continue  # not a lookup by name
+            verdict, why, at = None, "", w
+            child, p = w, w._parent
+            while p is not None and verdict is None:
+                if isinstance(p, ast.Call) and child is not p.func:
+                    nm = p.func.id if isinstance(p.func, ast.Name) else getattr(p.func, "attr", None)
+                    if nm in ("filter", "iter", "list", "tuple", "map", "chain", "from_iterable"):
+                        pass
+                    elif nm == "next":
+                        verdict, why = "first", "next(...) of the matches"
+                    elif nm == "deque" and any(k.arg == "maxlen" for k in p.keywords):
+                        verdict, why = "last", "deque(..., maxlen=...) keeps the last match(es)"
+                    elif nm == "reversed":
+                        verdict, why = "last", "the matches are reversed before one is taken"
+                    elif nm in ("dict", "OrderedDict"):
+                        verdict, why = "last", "a mapping built from the matches keeps the last one per name"
+                    else:
+                        break
+                elif isinstance(p, ast.comprehension) and p.iter is child:
+                    comp = p._parent
+                    if isinstance(comp, ast.DictComp):
+                        verdict, why = "last", "a dict comprehension over the matches keeps the last one per name"
+                    child, p = comp, comp._parent
+                    continue
+                elif isinstance(p, ast.Subscript) and p.value is child:
+                    s_ = p.slice
+                    if isinstance(s_, ast.Constant) and s_.value == 0:
+                        verdict, why = "first", "[0] of the matches"
+                    elif isinstance(s_, ast.UnaryOp) and isinstance(s_.op, ast.USub):
+                        verdict, why = "last", "[-1] of the matches"
+                    elif isinstance(s_, ast.Slice) and isinstance(s_.step, ast.UnaryOp):
+                        verdict, why = "last", "the matches are reversed ([::-1])"
+                    else:
+                        break
+                elif isinstance(p, ast.For) and p.iter is child:
+                    hits = [s for s in ast.walk(p) if isinstance(s, ast.If) and any(isinstance(x, ast.Attribute) and x.attr == "name" for x in ast.walk(s.test))]
+                    exits = [x for h in hits for x in ast.walk(h) if isinstance(x, (ast.Break, ast.Return))]
+                    if hits and exits:
+                        verdict, why = "first", "the loop leaves at the first match"
+                    elif hits:
+                        verdict, why = "last", "the loop keeps going after a match: the last one wins"
+                    else:
+                        break
+                elif isinstance(p, ast.stmt):
+                    # bound to a local and selected later: follow one local
+                    if isinstance(p, ast.Assign) and len(p.targets) == 1 and isinstance(p.targets[0], ast.Name):
+                        uses = [u for u in ast.walk(fi.node) if isinstance(u, ast.Name) and u.id == p.targets[0].id and isinstance(u.ctx, ast.Load)]
+                        if len(uses) == 1:
+                            child, p = uses[0], uses[0]._parent
+                            continue
+                    break
+                child, p = p, getattr(p, "_parent", None)
+            n += 1
+            inst = "%s: selection over %s" % (fi.qualname, src(w, 40))
+            if verdict == "first":
+                rep.holds("FIRST-MATCH", inst, loc(prog, w), why)
+            elif verdict == "last":
+                rep.violation(Finding("FIRST-MATCH", fi.qualname, "last-match",
+                                      "the definition merged into the class is the LAST one of that name in ast.walk order (%s): with a nested class that defines the same "
+                                      "method, the nested class's method is taken instead of the class's own" % why, loc(prog, w)))
+            else:
+                rep.ob("FIRST-MATCH", inst, "unresolved", loc(prog, w), "selection shape not recognised")
+    if n == 0:
+        raise AnalysisError("FIRST-MATCH: no lookup by name over ast.walk(...) found in %s" % anchor)
